@@ -3,6 +3,7 @@ package prove
 import (
 	"go/constant"
 	"go/types"
+	"strconv"
 	"strings"
 
 	"golang.org/x/tools/go/ssa"
@@ -146,8 +147,43 @@ func (c *Ctx) successFacts(call *ssa.Call) {
 // callFacts: integer result o of a (single-result) call.
 func (c *Ctx) callFacts(call *ssa.Call, o lin.Form) {
 	switch staticName(call.Common()) {
-	case "crypto/subtle.ConstantTimeByteEq", "crypto/subtle.ConstantTimeEq", "crypto/subtle.ConstantTimeLessOrEq", "crypto/subtle.ConstantTimeCompare":
+	case "crypto/subtle.ConstantTimeByteEq", "crypto/subtle.ConstantTimeEq", "crypto/subtle.ConstantTimeCompare":
 		c.add(lin.GE0(o), lin.LE(o, lin.K(1)))
+	case "crypto/subtle.ConstantTimeSelect":
+		a := call.Common().Args
+		x, y := c.Lin(a[1]), c.Lin(a[2])
+		if c.Entails(lin.GE0(x)) && c.Entails(lin.GE0(y)) {
+			c.add(lin.GE0(o), lin.LE(o, x.Add(y)))
+		}
+	case "crypto/subtle.ConstantTimeLessOrEq":
+		// result ∈ {0,1}; result = 1 ⇔ x <= y, provided 0 <= x, y <= 2^31−1
+		// (a len() operand is accepted under the stated assumption that decoder
+		// inputs are shorter than 2 GiB). Encoded with a big-M term.
+		c.add(lin.GE0(o), lin.LE(o, lin.K(1)))
+		a := call.Common().Args
+		x, y := c.Lin(a[0]), c.Lin(a[1])
+		small := func(f lin.Form, v ssa.Value) bool {
+			if !c.Entails(lin.GE0(f)) {
+				return false
+			}
+			if c.Entails(lin.LE(f, lin.K(1<<31-1))) {
+				return true
+			}
+			if call, ok := v.(*ssa.Call); ok {
+				if b, ok := call.Call.Value.(*ssa.Builtin); ok && b.Name() == "len" {
+					return true
+				}
+			}
+			return false
+		}
+		if small(x, a[0]) && small(y, a[1]) {
+			M := lin.KB(two62)
+			one := lin.K(1)
+			// o = 1 ⇒ x <= y :  x <= y + M·(1−o)
+			c.add(lin.LE(x, y.Add(M.Sub(o.Scale(two62)))))
+			// o = 0 ⇒ x >= y+1 : x >= y + 1 − M·o
+			c.add(lin.GE(x, y.Add(one).Sub(o.Scale(two62))))
+		}
 	case "strings.Index", "strings.IndexByte", "strings.LastIndex", "bytes.Index", "bytes.IndexByte", "strings.IndexRune", "bytes.LastIndex", "strings.LastIndexByte":
 		a := call.Common().Args
 		c.add(lin.GE(o, lin.K(-1)), lin.LT(o, c.LenOf(a[0])))
@@ -220,6 +256,20 @@ func (c *Ctx) containsKnown(s ssa.Value, sep string) bool {
 			}
 		}
 	}
+	// φ: every incoming value must contain sep on its own edge
+	if phi, ok := s.(*ssa.Phi); ok && !isLoopPhi(phi) {
+		all := true
+		for i, pred := range phi.Block().Preds {
+			ec := c.FI.CtxEdge(pred, phi.Block())
+			if !ec.containsKnown(phi.Edges[i], sep) {
+				all = false
+				break
+			}
+		}
+		if all {
+			return true
+		}
+	}
 	// s = lit + t / t + lit
 	if b, ok := s.(*ssa.BinOp); ok {
 		for _, op := range []ssa.Value{b.X, b.Y} {
@@ -290,4 +340,62 @@ func (c *Ctx) paramFacts(p *ssa.Parameter, o lin.Form) {
 		c.add(lin.GE0(o), lin.LE(o, lin.KB(two48)))
 		c.FI.W.Requires[c.FI.W.P.FuncName(p.Parent())] = "0 <= " + p.Name() + " (valid buffer offset)"
 	}
+}
+
+// nonNegResult: does in-module function fn return a non-negative value in
+// result i at every return? (optimistic for recursion; cached)
+func (w *World) nonNegResult(fn *ssa.Function, i int) bool {
+	if w.nonNeg == nil {
+		w.nonNeg = map[string]int{}
+	}
+	key := fn.String() + "#" + strconv.Itoa(i)
+	switch w.nonNeg[key] {
+	case 1:
+		return true
+	case 2:
+		return false
+	}
+	if fn.Blocks == nil || !w.P.InModule(fn) {
+		w.nonNeg[key] = 2
+		return false
+	}
+	w.nonNeg[key] = 1 // assume while checking (recursion)
+	fi := w.Info(fn)
+	for _, b := range fn.Blocks {
+		ret, ok := b.Instrs[len(b.Instrs)-1].(*ssa.Return)
+		if !ok || i >= len(ret.Results) {
+			continue
+		}
+		c := fi.ctxBefore(ret)
+		if !c.Prove(lin.GE0(c.Lin(ret.Results[i]))) {
+			w.nonNeg[key] = 2
+			return false
+		}
+	}
+	return true
+}
+
+// resultFacts adds summary facts for the integer result (index i) of a call.
+func (c *Ctx) resultFacts(call *ssa.Call, i int, o lin.Form) {
+	if _, _, ok := isIntType(o2t(call, i)); !ok {
+		return
+	}
+	callees := c.FI.W.CalleesOf(call)
+	if len(callees) == 0 {
+		return
+	}
+	for _, f := range callees {
+		if !c.FI.W.P.InModule(f) || !c.FI.W.nonNegResult(f, i) {
+			return
+		}
+	}
+	c.add(lin.GE0(o))
+}
+
+func o2t(call *ssa.Call, i int) types.Type {
+	res := call.Common().Signature().Results()
+	if i < res.Len() {
+		return res.At(i).Type()
+	}
+	return types.Typ[types.Invalid]
 }
